@@ -235,6 +235,21 @@ func build(race bool, both bool) (*buildOut, error) {
 	}
 	if rep != nil {
 		rep.WriteReport(filepath.Join(scratch, "instr_report.json"))
+		// I/O the simulator has no model for would run against the real machine:
+		// no verdict can be given on such a tree (the entries below are the
+		// peer-discovery and RPC calls of ipfix/memcache_rpc.go, which no check
+		// reaches through the network)
+		known := map[string]bool{"net.Interfaces": true, "net.LookupHost": true, "net/rpc.Accept": true, "net/rpc.Client": true, "net/rpc.NewClient": true, "net/rpc.Register": true}
+		var unknown []string
+		for sel := range rep.Unsimulated {
+			if !known[sel] {
+				unknown = append(unknown, sel)
+			}
+		}
+		if len(unknown) > 0 {
+			sort.Strings(unknown)
+			return bo, fmt.Errorf("the tree uses I/O calls the simulator has no model for: %s (extend tool/instr selTable and engine/simrt)", strings.Join(unknown, ", "))
+		}
 	}
 	eng := filepath.Join(verifDir, "engine")
 	if err := copyDir(filepath.Join(eng, "simrt"), filepath.Join(src, "verifsim", "simrt"), nil); err != nil {
